@@ -49,7 +49,7 @@ CONSTANTS Msgs,         \* message ids (positive integers)
           Prefetch,     \* 0: consume() takes from the broker itself (in-memory); n > 0: a background fetch keeps up to n messages in a local queue
           FinishMode    \* "taken" | "local", see above
 
-VARIABLES wc,                                \* configuration [tl, ml, maxr : Msgs -> Nat, qof : Msgs -> queue, nq] (never changes)
+VARIABLES wc,                                \* configuration [tl, ml, maxr : Msgs -> Nat, qof : Msgs -> queue, nq, pf (prefetch), fm (finish mode)] (never changes)
           pool,                              \* messages not yet enqueued
           q, proc, dead, acked, tried,      \* broker: waiting sequence per queue, in flight, dead, acknowledged, attempt counters
           cl, clm,                           \* per queue, consumer loop: pc, message in hand
@@ -74,13 +74,14 @@ InitWith(cfg, late) ==
               p3 \in Perms({m \in Msgs \ late : cfg.qof[m] = 3}) : q = <<p1, p2, p3>>
         /\ proc = {} /\ dead = {} /\ acked = {} /\ tried = [m \in Msgs |-> 0]
         /\ cl = [k \in 1..QMAX |-> IF k <= cfg.nq THEN "consume" ELSE "ended"] /\ clm = [k \in 1..QMAX |-> None]
-        /\ sem = cfg.tl /\ fetch = [k \in 1..QMAX |-> None] /\ lq = [k \in 1..QMAX |-> <<>>] /\ hand = [k \in 1..QMAX |-> None]
+        /\ sem = cfg.tl /\ fetch = [k \in 1..QMAX |-> {}] /\ lq = [k \in 1..QMAX |-> <<>>] /\ hand = [k \in 1..QMAX |-> None]
         /\ fin = [k \in 1..QMAX |-> k > cfg.nq]
         /\ tpc = [m \in Msgs |-> "none"] /\ out = [m \in Msgs |-> "ok"]
         /\ processed = 0 /\ started = 0 /\ running = 0
         /\ stop = FALSE /\ cancel = FALSE /\ phase = "run"
 Init == \E late \in (IF Late THEN SUBSET Msgs ELSE {{}}) :
-            InitWith([tl |-> TL, ml |-> ML, maxr |-> [m \in Msgs |-> MaxRetries], qof |-> [m \in Msgs |-> ((m - 1) % NQ) + 1], nq |-> NQ], late)
+            InitWith([tl |-> TL, ml |-> ML, maxr |-> [m \in Msgs |-> MaxRetries], qof |-> [m \in Msgs |-> ((m - 1) % NQ) + 1], nq |-> NQ,
+                      pf |-> Prefetch, fm |-> FinishMode], late)
 
 OverBudget(s) == wc.ml > 0 /\ wc.ml - processed - (wc.tl - s) < 0      \* with s free slots
 BudgetUsed(s) == wc.ml > 0 /\ wc.ml - processed - (wc.tl - s) <= 0     \* what max_tasks_hit computes
@@ -98,20 +99,32 @@ StopRequest == /\ ~stop /\ phase = "run" /\ stop' = TRUE
 \* (tasks are keyed by message: a message is not taken again before the done-callback of its previous task has run --
 \*  the callback is scheduled in the loop step that ends the task, a new take needs several steps)
 CL_TakeM(m) == LET k == wc.qof[m] IN
-               /\ Prefetch = 0 /\ cl[k] = "consume" /\ InQ(m) /\ tpc[m] = "none"
+               /\ wc.pf = 0 /\ cl[k] = "consume" /\ InQ(m) /\ tpc[m] = "none"
                /\ proc' = proc \cup {m} /\ hand' = [hand EXCEPT ![k] = m] /\ q' = [q EXCEPT ![k] = Rm(@, m)]
                /\ cl' = [cl EXCEPT ![k] = "handing"]
                /\ U(<<wc, pool, dead, acked, tried, clm, fetch, lq, fin, sem, tpc, out, processed, started, running, stop, cancel, phase>>)
 CL_Take(k) == q[k] # <<>> /\ CL_TakeM(Head(q[k]))
 (* brokers with prefetch: the background fetch marks a message in flight, then puts it into the local queue *)
-C_FetchM(m) == LET k == wc.qof[m] IN
-               /\ Prefetch > 0 /\ fetch[k] = None /\ Len(lq[k]) < Prefetch /\ InQ(m) /\ ~fin[k] /\ tpc[m] = "none"
-               /\ proc' = proc \cup {m} /\ fetch' = [fetch EXCEPT ![k] = m] /\ q' = [q EXCEPT ![k] = Rm(@, m)]
+\* (how many messages a consumer may have fetched ahead is the broker's business -- Redis: the local queue is bounded, the fetch
+\*  blocks on the put; RabbitMQ: the prefetch count bounds the unacknowledged deliveries --: a trace is not judged on it)
+C_FetchAny(m) == LET k == wc.qof[m] IN
+               /\ wc.pf > 0 /\ InQ(m) /\ ~fin[k] /\ tpc[m] = "none"
+               /\ proc' = proc \cup {m} /\ fetch' = [fetch EXCEPT ![k] = @ \cup {m}] /\ q' = [q EXCEPT ![k] = Rm(@, m)]
                /\ U(<<wc, pool, dead, acked, tried, cl, clm, lq, hand, fin, sem, tpc, out, processed, started, running, stop, cancel, phase>>)
+C_FetchM(m) == Cardinality(fetch[wc.qof[m]]) + Len(lq[wc.qof[m]]) < wc.pf /\ C_FetchAny(m)
 C_Fetch(k) == q[k] # <<>> /\ C_FetchM(Head(q[k]))
-C_Local(k) == /\ fetch[k] # None /\ ~fin[k] /\ lq' = [lq EXCEPT ![k] = Append(@, fetch[k])] /\ fetch' = [fetch EXCEPT ![k] = None]
-              /\ U(<<wc, pool, q, proc, dead, acked, tried, cl, clm, hand, fin, sem, tpc, out, processed, started, running, stop, cancel, phase>>)
-CL_Get(k) == /\ Prefetch > 0 /\ cl[k] = "consume" /\ lq[k] # <<>>
+C_LocalM(m) == LET k == wc.qof[m] IN
+               /\ m \in fetch[k] /\ ~fin[k] /\ lq' = [lq EXCEPT ![k] = Append(@, m)] /\ fetch' = [fetch EXCEPT ![k] = @ \ {m}]
+               /\ U(<<wc, pool, q, proc, dead, acked, tried, cl, clm, hand, fin, sem, tpc, out, processed, started, running, stop, cancel, phase>>)
+C_Local(k) == \E m \in fetch[k] : C_LocalM(m)
+\* the consumer gives a message it has fetched straight back (RabbitMQ: a delivery that reaches a paused or no longer consuming
+\* consumer is rejected after 0.1 s)
+C_ReturnM(m) == LET k == wc.qof[m] IN
+                /\ m \in fetch[k] /\ q' = [q EXCEPT ![k] = Append(@, m)] /\ proc' = proc \ {m}
+                /\ fetch' = [fetch EXCEPT ![k] = @ \ {m}]
+                /\ U(<<wc, pool, dead, acked, tried, cl, clm, lq, hand, fin, sem, tpc, out, processed, started, running, stop, cancel, phase>>)
+C_Return(k) == \E m \in fetch[k] : C_ReturnM(m)
+CL_Get(k) == /\ wc.pf > 0 /\ cl[k] = "consume" /\ lq[k] # <<>>
              /\ hand' = [hand EXCEPT ![k] = Head(lq[k])] /\ lq' = [lq EXCEPT ![k] = Tail(@)] /\ cl' = [cl EXCEPT ![k] = "handing"]
              /\ U(<<wc, pool, q, proc, dead, acked, tried, clm, fetch, fin, sem, tpc, out, processed, started, running, stop, cancel, phase>>)
 (* the consumer loop resumes with the message *)
@@ -186,18 +199,21 @@ FG == /\ phase = "run" /\ \A k \in Qs : cl[k] = "ended"
 (* returned is then no longer held: that reject finds nothing to do)                                                     *)
 ConsFinish(k) ==
     /\ phase = "fin" /\ ~fin[k] /\ fin' = [fin EXCEPT ![k] = TRUE]
-    /\ IF FinishMode = "taken"
-       THEN /\ \E s \in Perms(OfQueue(proc, k)) : q' = [q EXCEPT ![k] = @ \o s]
-            /\ proc' = proc \ OfQueue(proc, k)
+    /\ IF wc.fm = "taken"
+       THEN \* (a delivery the consumer is still looking at is not in its hands yet: it gives that one back itself, C_Return)
+            /\ \E s \in Perms(OfQueue(proc, k) \ fetch[k]) : q' = [q EXCEPT ![k] = @ \o s]
+            /\ proc' = proc \ (OfQueue(proc, k) \ fetch[k])
+            /\ U(<<fetch>>)
        ELSE \* only what is in the local queue; the fetch under way is cancelled where it is
             /\ q' = [q EXCEPT ![k] = @ \o lq[k]] /\ proc' = proc \ {lq[k][j] : j \in 1..Len(lq[k])}
-    /\ lq' = [lq EXCEPT ![k] = <<>>] /\ fetch' = [fetch EXCEPT ![k] = None]
+            /\ fetch' = [fetch EXCEPT ![k] = {}]
+    /\ lq' = [lq EXCEPT ![k] = <<>>]
     /\ U(<<wc, pool, dead, acked, tried, cl, clm, hand, sem, tpc, out, processed, started, running, stop, cancel, phase>>)
 Return == /\ phase = "fin" /\ \A k \in 1..QMAX : fin[k]
           /\ phase' = "ret"
           /\ U(<<wc, pool, q, proc, dead, acked, tried, cl, clm, fetch, lq, hand, fin, sem, tpc, out, processed, started, running, stop, cancel>>)
 Next == StopRequest \/ FG \/ Return
-        \/ \E k \in Qs : CL_Take(k) \/ C_Fetch(k) \/ C_Local(k) \/ CL_Get(k) \/ CL_Resume(k) \/ CL_Acquire(k) \/ CL_Cancel(k) \/ ConsFinish(k)
+        \/ \E k \in Qs : CL_Take(k) \/ C_Fetch(k) \/ C_Local(k) \/ C_Return(k) \/ CL_Get(k) \/ CL_Resume(k) \/ CL_Acquire(k) \/ CL_Cancel(k) \/ ConsFinish(k)
         \/ \E m \in Msgs : Arrive(m) \/ T_Start(m) \/ T_End(m) \/ T_Report(m) \/ T_Cancel(m) \/ T_Callback(m)
 Spec == Init /\ [][Next]_vars
 
@@ -207,7 +223,8 @@ Count(m) == CountQ(m) + (IF m \in proc THEN 1 ELSE 0)
 Conservation == \A m \in Msgs : Count(m) = 1                     \* C01/C03 at every step
 RunningBound == running <= wc.tl                                   \* C09
 StartedBound == wc.ml > 0 => started <= wc.ml                      \* C10
-AtReturn == (phase = "ret" /\ Active = {}) => (proc = {} /\ \A m \in Msgs : Count(m) = 1)      \* C03 (once the cancelled tasks are through)
+AtReturn == (phase = "ret" /\ Active = {} /\ \A k \in 1..QMAX : fetch[k] = {}) =>
+                (proc = {} /\ \A m \in Msgs : Count(m) = 1)      \* C03 (once the cancelled tasks and the consumers' stragglers are through)
 TriedBound == \A m \in Msgs : tried[m] <= wc.maxr[m]             \* C04
 SlotsSound == sem >= 0 /\ sem <= wc.tl /\ Cardinality(Active) = wc.tl - sem     \* the semaphore counts the tasks
 OwnQueue == \A k \in 1..QMAX : \A j \in 1..Len(q[k]) : wc.qof[q[k][j]] = k          \* a message never changes queue
